@@ -1,5 +1,7 @@
 /- Driver/FlacLoad.lean — FLAC.load: the pure model and the program over the file object (Model/Container/FlacLoad.lean) -/
 import MutagenModel.Model.Container.FlacLoad
+import MutagenModel.Model.Container.FlacSaveM
+import Driver.FlacC
 import Driver.Util
 import Driver.FileOps
 namespace Driver
@@ -28,5 +30,9 @@ def flacloadOp (a : Args) : String :=
     | .error e => s!"err {e.name}"
   else
     showResult (loadEntry (envOf a) { data := f, pos := a.nat "pos" 0 }) showLoaded
+
+/-- `flacsave data=… blocks=code:hex,… pad=… [B=] [fail=i:err] [short=i:k] [cap=n] [leak=n]`: FLAC.save with its real reads -/
+def flacsaveOp (a : Args) : String :=
+  showResult (saveRealEntry (a.nat "B" 1048576) (blocksOf (a.str "blocks" "-")) (padOf a) (envOf a) { data := a.bytes "data", pos := a.nat "pos" 0 })
 
 end Driver
